@@ -487,7 +487,18 @@ def strip_generics_tail(nm):
 
 
 # ------------------------------------------------------------------------------- local expression trees
-def expr(body, operand, depth=10):
+def _mut_borrowed(body):
+    mb = getattr(body, '_mut_borrowed', None)
+    if mb is None:
+        mb = set()
+        for bi, st in body.stmts():
+            rv = st['rv']
+            if rv['k'] in ('ref', 'rawptr') and (rv.get('mut') or rv['k'] == 'rawptr') and not rv['pl']['p']: mb.add(rv['pl']['l'])
+        body._mut_borrowed = mb
+    return mb
+
+
+def expr(body, operand, depth=18):
     """Reconstruct the expression computing `operand` by following single-definition locals
     (SSA-like temporaries).  Nodes:
        ('const', text) | ('place', root_local, [(adt, field)...]) | ('bin', op, a, b) | ('un', op, a)
@@ -500,7 +511,8 @@ def expr(body, operand, depth=10):
     if depth <= 0: return ('place', l, fs) if fs else ('local', l)
     if 1 <= l <= body.argc: return ('place', l, fs)
     defs = [d for d in body.defs_of(l) if not (d[0] == 'stmt' and d[2]['dst']['p'])]
-    if len(defs) != 1: return ('place', l, fs) if fs else ('local', l)
+    if len(defs) != 1 or (l in _mut_borrowed(body) and body.locals[l] in ('f64', 'u64', 'i64', 'usize', 'bool', 'i32', 'u32')):
+        return ('place', l, fs) if fs else ('local', l)
     k, bi, d = defs[0]
     if k == 'call':
         c = None
@@ -562,11 +574,14 @@ def expr_fields(e):
     return out
 
 
+WRAPPER_OWNER = re.compile(r'(ControlFlow::Continue|Option::Some|Result::Ok)$')
+
+
 def strip_wrappers(e):
     """peel transparent wrappers: casts between same-kind types are kept; ?-payload projections, refs and
     transparent calls (clone/into/from/deref/branch/...) are removed"""
     while True:
-        if e[0] == 'proj': e = e[1]; continue
+        if e[0] == 'proj' and all(WRAPPER_OWNER.search(a) for a, f in e[2]): e = e[1]; continue
         if e[0] == 'call' and TRANSPARENT.search(strip_generics_tail(e[2])) and e[3]: e = e[3][0]; continue
         return e
 
@@ -585,3 +600,79 @@ def expr_str(e, depth=6):
     if k == 'proj': return '%s%s' % (expr_str(e[1], depth - 1), ''.join('.' + f for a, f in e[2]))
     if k == 'discr': return 'discr(%s)' % expr_str(e[1], depth - 1)
     return str(e)[:40]
+
+
+# ------------------------------------------------------------------------------- f64 arithmetic views
+ARITH_CALL = re.compile(r'^<&?(f64|&f64) as std::ops::(Add|Sub|Mul|Div|Neg|Rem)(<&?f64>)?>::(add|sub|mul|div|neg|rem)$')
+ASSIGN_CALL = re.compile(r'^<f64 as std::ops::(Add|Sub|Mul|Div)Assign(<&?f64>)?>::(add|sub|mul|div)_assign$')
+
+
+def arith(e):
+    """normalise an expr tree: ops-trait calls on f64 become ('bin', Op, a, b) / ('un','Neg',a); wrappers stripped"""
+    e = strip_wrappers(e)
+    k = e[0]
+    if k == 'call':
+        m = ARITH_CALL.match(e[2])
+        if m:
+            op = m.group(2)
+            if op == 'Neg': return ('un', 'Neg', arith(e[3][0]))
+            return ('bin', op, arith(e[3][0]), arith(e[3][1]))
+        return e
+    if k == 'bin': return ('bin', e[1].replace('WithOverflow', ''), arith(e[2]), arith(e[3]))
+    if k == 'un': return ('un', e[1], arith(e[2]))
+    if k == 'cast': return ('cast', e[1], arith(e[2]))
+    return e
+
+
+def flatten(e, op):
+    e = arith(e)
+    if e[0] == 'bin' and e[1] == op:
+        return flatten(e[2], op) + flatten(e[3], op)
+    return [e]
+
+
+def accumulator(body, local):
+    """definitions of an f64 accumulator local: init expressions and (op, operand expr) updates"""
+    init = []; updates = []
+    for k, bi, d in body.defs_of(local):
+        if k == 'stmt':
+            if d['dst']['p']: continue
+            rv = d['rv']
+            if rv['k'] == 'bin' and rv.get('ty') == 'f64':
+                a, b = rv['ops']
+                def is_self(o):
+                    if o['k'] not in ('copy', 'move') or o['pl']['p']: return False
+                    l2 = o['pl']['l']
+                    for _ in range(3):
+                        if l2 == local: return True
+                        ds = body.defs_of(l2)
+                        if len(ds) == 1 and ds[0][0] == 'stmt' and ds[0][2]['rv']['k'] == 'use' and ds[0][2]['rv']['ops'][0]['k'] in ('copy', 'move') and not ds[0][2]['rv']['ops'][0]['pl']['p']:
+                            l2 = ds[0][2]['rv']['ops'][0]['pl']['l']
+                        else: return False
+                    return l2 == local
+                if is_self(a): updates.append((rv['op'], 'L', expr(body, b), bi)); continue
+                if is_self(b): updates.append((rv['op'], 'R', expr(body, a), bi)); continue
+            init.append((expr(body, {'k': 'copy', 'pl': {'l': -1, 'p': []}}) if False else _rv_expr(body, rv), bi))
+        else:
+            init.append((('call', d.get('ri', {}).get('item', '?'), d['r'] or d['f'], [expr(body, a) for a in d['args']]), bi))
+    # op-assign calls through &mut local
+    refs = set()
+    for bi, st in body.stmts():
+        rv = st['rv']
+        if rv['k'] == 'ref' and rv.get('mut') and rv['pl'] == {'l': local, 'p': []} and not st['dst']['p']: refs.add(st['dst']['l'])
+    for c in body.calls:
+        m = ASSIGN_CALL.match(c.name)
+        if m and c.arg_local(0) in refs:
+            updates.append((m.group(1), 'L', expr(body, c.args[1]), c.bb))
+    return init, updates
+
+
+def _rv_expr(body, rv):
+    k = rv['k']
+    if k == 'use': return expr(body, rv['ops'][0])
+    if k == 'bin': return ('bin', rv['op'], expr(body, rv['ops'][0]), expr(body, rv['ops'][1]))
+    if k == 'un': return ('un', rv['op'], expr(body, rv['ops'][0]))
+    if k == 'cast': return ('cast', rv['to'], expr(body, rv['ops'][0]))
+    if k == 'ref': return expr(body, {'k': 'copy', 'pl': rv['pl']})
+    if k == 'agg': return ('agg', rv['adt'], [expr(body, o) for o in rv['ops']])
+    return ('local', -1)
